@@ -170,10 +170,11 @@ def check_stored(g, ref_lines, chk, what):
 
 def judge_graph(link, both_orders=True, with_variants=True):
   out = []
+  cur = [None]       # the lines added in the graph being judged
 
   def chk(clause, field, exp, obs):
     if exp != obs:
-      out.append((clause, field, exp, obs))
+      out.append((clause, field, exp, obs, list(cur[0])))
   comp = R.link_complement(link)
   txt, ctxt = R.link_text(link), R.link_text(comp)
   nstates = []
@@ -181,6 +182,7 @@ def judge_graph(link, both_orders=True, with_variants=True):
     for first, second, what in ((txt, ctxt, "l then complement"),
                                 (ctxt, txt, "complement then l")):
       g = gfapy.Gfa(version="gfa1")
+      cur[0] = seg_lines(link) + [first, second]
       for s in seg_lines(link):
         g.add_line(s)
       g.add_line(first)
@@ -196,6 +198,7 @@ def judge_graph(link, both_orders=True, with_variants=True):
     for first, second in (((txt, vt), (vt, txt)) if both_orders
                           else ((txt, vt),)):
       g = gfapy.Gfa(version="gfa1")
+      cur[0] = seg_lines(link, v) + [first, second]
       for s in seg_lines(link, v):
         g.add_line(s)
       g.add_line(first)
@@ -475,7 +478,10 @@ def standalone(mode, link, extra=None):
 
 def mk(mode, link, probs, witness, extra=None, more=None):
   vs = []
-  for clause, field, exp, obs in probs:
+  for prob in probs:
+    clause, field, exp, obs = prob[:4]
+    if len(prob) > 4:
+      extra = prob[4]
     key = {"mode": mode, "field": field}
     if link is not None:
       key["shape"] = shape_of(link)
@@ -623,6 +629,7 @@ def work_p3(chunk):
 FIXED_ORDERS_QUICK = [("SA", "SB", "L", "Lc", "P"), ("P", "Lc", "L", "SB", "SA")]
 FIXED_ORDERS_THOROUGH = FIXED_ORDERS_QUICK + [
     ("SA", "SB", "Lc", "L", "P"), ("L", "P", "Lc", "SA", "SB")]
+QUICK_SHAPES_3OPS = (("A", "+", "B", "-"), ("A", "-", "A", "-"))
 QUICK_ORDER_CIGARS = ["*", "1M", "1I", "2D", "1P", "1M1I", "1I1D", "1D2M"]
 
 
@@ -666,7 +673,10 @@ def run(ctx):
     fixed_cigs = short_cigs
   else:
     TIER["variants-all"] = True
-    order_cigs = ["*"] + short_cigs
+    # every arrival order: *, all CIGARs of one operation, and all CIGARs of
+    # two operations of length 1 (64 overlaps)
+    order_cigs = ["*"] + R.all_cigars(OPS, (1, 2), 1) + \
+        R.all_cigars(OPS, (1,), 2)[len(OPS):]
     fixed = FIXED_ORDERS_THOROUGH
     fixed_forms = list(FORMS)
     fixed_cigs = full[1:]
@@ -677,7 +687,9 @@ def run(ctx):
       "links": {"topology": ["A->B", "A->A"],
                 "orientations": ["".join(o) for o in ORIENTS],
                 "overlap": "* + all {} CIGARs of <= 3 ops over {} x "
-                           "{{1,2}}".format(len(full) - 1, OPS)},
+                           "{{1,2}}".format(len(full) - 1, OPS),
+                "restriction": "quick: CIGARs of 3 ops with the shapes "
+                               "A+B- and A-A- only" if ctx.quick else "none"},
       "different links": ["from orientation inverted", "to orientation "
                           "inverted", "other to-segment", "CIGAR + 1M",
                           "complement form of CIGAR + 1M",
@@ -705,7 +717,12 @@ def run(ctx):
       "complement (A+ -> A-) may record either orientation flag",
       "CIGARs are compared textually (1M1M is not 2M)"]
   seen, per_class, counter = set(), {}, [0]
-  all_links = list(links(full))
+  if ctx.quick:
+    # overlaps of 3 operations with one A->B and one A->A shape only
+    all_links = [l for l in links(full)
+                 if short(l) or l[:4] in QUICK_SHAPES_3OPS]
+  else:
+    all_links = list(links(full))
   merge_dedup(ctx, ctx.pmap(work_algebra, list(chunks(all_links, 60)),
                             chunksize=1), seen, per_class, counter)
   t1 = ctx.elapsed()
